@@ -56,8 +56,8 @@ CHECKS = {
          "Merged-boundary binary ufunc decodes to map2 of the dense arrays and has no equal neighbours; reductions on run values equal reductions of the decoded array.", "4.16, 10.3", ""),
  "C17": ("Coq proofs from_ragged_decode, from_matrix_decode, rl2_select/map/concat/sum/max_argmax/col/ravel/elem, rl2_col_sum(_matrix)_correct, rl2_col_counts_correct, from_intervals_decode, rl2_col_range_pos1_partial (column ranges a:b with step 1 inside the rows) + step-subset kernel tie + correspondence (model and dense numpy), the only decision for the other column ranges and any(axis=0)",
          "Row-wise lock-step representation; column sums (sorted change events + running sums) and column counts decode to the dense column sums / counts for every column. from_intervals decodes to the indicator matrix. Column ranges / any(axis=0) are modelled (Model/RLE2d.v) and decided by correspondence with the model and with numpy on the dense data (stated, not proved).", "4.17, 10.3", ""),
- "C18": ("Coq proof obj_select_entries / obj_item_entry / obj_concat_entries / obj_eqb_iff / varlen_rows + correspondence on run-time generated dataclasses",
-         "Applying one selector to every field equals selecting entries of the table; concatenation concatenates the tables; VarLenArray concatenation right-aligns. Correspondence only: astype, iteration.", "4.18, 10.3", ""),
+ "C18": ("Coq proof obj_select_entries / obj_item_entry / obj_concat_entries / obj_eqb_iff / obj_astype_* / varlen_rows + correspondence on run-time generated dataclasses",
+         "Applying one selector to every field equals selecting entries of the table; concatenation concatenates the tables; astype keeps every value under its own field name; VarLenArray concatenation right-aligns. Correspondence only: iteration.", "4.18, 10.3", ""),
  "C19": ("Coq proof index_rows_width_independent, shape_codes_width_independent, geometry_additions_width_independent + all C01-C09 case sets run under both index widths (separate processes and in-process switch)",
          "Packed 64-bit gather of (start,length) pairs equals gathering the pairs when entries fit 31 bits; the int32 geometry arithmetic equals the unbounded one for arrays that fit; "
          "the implementation is compared with itself across configurations.", "4.19, 10.3", ""),
